@@ -331,6 +331,22 @@ def run(spec, ctx):
                     if bad:
                         ctx.violation("view-lists-another-query's-matches", {"kind": "key-twins"}, {"document": repr(kdocs[i]), "query": text, "pointers": [str(x) for x in ptrs], "expected": [str(m.pointer()) for m in ms]})
                         return
+        # counts far beyond any sequence (2^31, 2^53, the platform's largest index) and counts beyond an environment's own
+        # narrowed index range: "more than there is" means everything, as with list slicing
+        import sys as _sys
+
+        narrow = type("NarrowEnv", (jsonpath.JSONPathEnvironment,), {"max_int_index": 100, "min_int_index": -100})()
+        for e_, counts_ in ((env, (2 ** 31 - 1, 2 ** 31, 2 ** 53 - 1, 2 ** 53, 2 ** 53 + 1, _sys.maxsize)), (narrow, (99, 100, 101, 1000, 2 ** 53, _sys.maxsize))):
+            for n_ in (0, 1, 5):
+                for op_ in ("limit", "head", "first", "skip", "drop", "tail", "last", "take"):
+                    for c_ in counts_:
+                        for chain_ in ([(op_, c_)], [(op_, c_), ("limit", 3)], [("skip", 1), (op_, c_)]):
+                            ctx.evaluation()
+                            diff = run_chain(matches_for(n_), chain_, "values", e_)
+                            ctx.count("chains_with_counts_far_beyond_the_sequence")
+                            if diff and diff[0]:
+                                ctx.violation("chain-differs-from-list-model:count-far-beyond-the-sequence:%s" % op_, {"kind": "key-twins"}, {"environment": "default" if e_ is env else "max_int_index=100", "sequence_length": n_, "chain": [list(x) for x in chain_], "diff": diff[0]})
+                                return
         # the views over documents whose member names come from the hostile pool (backslashes, text that looks like an escape,
         # leading blanks, digits beyond the index limit, '~' and '/'): each view entry must be the location of ITS match -
         # the pointer by its tokens, compared with the match's own parts, not only by how it prints
